@@ -1,6 +1,7 @@
 package props
 
 import (
+	"bytes"
 	"fmt"
 	"math/rand"
 	"sort"
@@ -36,7 +37,10 @@ type c06Op struct {
 	Ret      int64
 	LTime    uint64
 	HasLTime bool
+	Filtered []byte // an incoming query addressed to other nodes: its bytes (processed iff the node re-broadcasts it)
 }
+
+func bytesContains(b, sub []byte) bool { return bytes.Contains(b, sub) }
 
 func c06Round(t *testing.T, rng *rand.Rand, queries bool) (viol []string, stats map[string]int, sig string) {
 	stats = map[string]int{}
@@ -110,10 +114,18 @@ func c06Round(t *testing.T, rng *rand.Rand, queries bool) (viol []string, stats 
 					op := &c06Op{ID: id, LTime: lt, HasLTime: true}
 					var buf []byte
 					if queries {
+						var filt [][]byte
+						if lr.Intn(3) == 0 {
+							// a query addressed to other nodes only: handled and re-broadcast here, not delivered
+							filt = [][]byte{wire.EncodeFilterNodes([]string{"somebody-else"})}
+						}
 						buf = wire.Encode(wire.Query, &wire.MsgQuery{LTime: lt, ID: uint32(id), Addr: []byte{10, 0, 0, 9}, Port: 7946, SourceNode: "peer",
-							Timeout: time.Second, Name: "in", Payload: []byte(fmt.Sprintf("in-%d", id))})
+							Filters: filt, Timeout: time.Second, Name: "in", Payload: []byte(fmt.Sprintf("in-%d", id))})
 					} else {
 						buf = wire.Encode(wire.UserEvent, &wire.MsgUserEvent{LTime: lt, Name: "in", Payload: []byte(fmt.Sprintf("in-%d", id))})
+					}
+					if queries && len(buf) > 0 && bytesContains(buf, []byte("somebody-else")) {
+						op.Filtered = buf
 					}
 					op.Call = stamp.Add(1)
 					nd.NotifyMsg(buf)
@@ -142,7 +154,21 @@ func c06Round(t *testing.T, rng *rand.Rand, queries bool) (viol []string, stats 
 				delivered[string(v.Payload)] = true
 			}
 		}
+		requeued := map[string]bool{}
+		for _, m := range nd.DrainBroadcasts() {
+			requeued[string(m)] = true
+		}
 		for _, op := range ops {
+			if !op.Own && op.Filtered != nil {
+				// not delivered by design; it was processed iff the node queued it for re-broadcast
+				if requeued[string(op.Filtered)] {
+					stats["incoming_filtered_processed"]++
+				} else {
+					op.HasLTime = false
+					stats["incoming_filtered_not_processed"]++
+				}
+				continue
+			}
 			if op.Own {
 				if v, ok := lt[fmt.Sprintf("own-%d", op.ID)]; ok {
 					op.LTime, op.HasLTime = v, true
